@@ -86,8 +86,9 @@ def first(a_set):
 def _ensure_multiline_string_triple_quoted(value):
     # converting the value to a string
     s = str(value)
-    # Escaping any backslash (first) and double quote
-    s = s.replace("\\", "\\\\").replace('"', '\\"')
+    # Escaping any backslash (first), double quote and carriage return (which
+    # PROV-N does not allow unescaped in a single-line string)
+    s = s.replace("\\", "\\\\").replace('"', '\\"').replace("\r", "\\r")
     if "\n" in s:
         return '"""%s"""' % s
     else:
